@@ -117,3 +117,23 @@ Proof.
   - apply N.div_le_lower_bound; [exact Hl|lia].
   - apply N.div_le_upper_bound; [exact Hl|lia].
 Qed.
+
+(* Calls / Total / Self / min / max / avg of a function's row are the figures of the rows bearing its name *)
+Theorem report_figures nms rows nm :
+  let l := mine nms nm rows in
+  l <> [] -> sumN (map w_total l) < M64 -> sumN (map w_self l) < M64 ->
+  exists n, find_node (table_of_rows nms rows) nm = Some n /\ n_name n = nm /\ figures n l.
+Proof.
+  intros l Hne Ht Hs. rewrite report_node. fold l. destruct l as [|w t] eqn:E; [congruence|].
+  eexists. split; [reflexivity|]. split.
+  - change (n_name (finish_node ?x)) with (n_name x). rewrite fold_upd_name. reflexivity.
+  - apply node_figures; assumption.
+Qed.
+
+(* non-vacuity: a table with recursion; beta's node *)
+Example ex_figures :
+  let rows := [mkrow 10 5 5 true; mkrow 10 30 25 false; mkrow 20 7 7 false; mkrow 10 4 4 false] in
+  exists n, find_node (table_of_rows [(10, 1); (20, 2)] rows) 1 = Some n
+            /\ n_call n = 3 /\ sum (n_total n) = 34 /\ recs (n_total n) = 5 /\ smin (n_total n) = 4
+            /\ smax (n_total n) = 30 /\ avg (n_total n) = 13 /\ sum (n_self n) = 34.
+Proof. eexists. vm_compute. repeat split; reflexivity. Qed.
